@@ -563,6 +563,9 @@ func runParserFuzz(args []string) int {
 					rep.mu.Unlock()
 					continue
 				}
+				if m["problem"] == "hang" {
+					sawSummary = true // a child that reports a hang stops there, on purpose
+				}
 				rep.violate(fmt.Sprintf("parser/%v/%v", m["problem"], m["entry"]), fmt.Sprintf("%v in %v: %v (input %v)", m["problem"], m["entry"], m["detail"], m["input"]), m)
 			}
 			if err != nil || !sawSummary {
@@ -589,11 +592,11 @@ func runParserFuzz(args []string) int {
 	rep.mu.Unlock()
 	rep.sample(map[string]any{"note": "field-aware mutations (u64/u32 overwrite, varint splice, bit flip, truncate, insert, duplicate) of 28 valid CARv1/CARv2/index files and raw random strings", "entry_points": len(entryPoints)}, 1)
 	rep.write(out)
-	if len(rep.Inconcl) > 0 {
-		return 2
-	}
 	if len(rep.ViolClasses) > 0 {
 		return 1
+	}
+	if len(rep.Inconcl) > 0 {
+		return 2
 	}
 	return 0
 }
